@@ -1011,3 +1011,29 @@ def n2(ctx):
             ctx.check('%s/cur-advances-by-callee-count' % short(f).split('::')[-1], okc,
                       '%s: `cur` moves back by the count each child reports' % inst(f),
                       '%s: `cur` is not advanced by the value returned for the child' % inst(f), f.loc)
+            # ... for every child: a return is reached only after a loop over the children (which
+            # may run zero times), except in the arms of the childless kinds.  A shortcut such as
+            # `if (root.num_leaves == 0) return pos - cur;` reports 1 node for a subtree that has
+            # several (a leafless subtree is not a childless node).
+            cfg = cfg_of(f)
+            heads = set()
+            for c in lam_calls:
+                cn = cfg.cnode_of(c)
+                if cn is None:
+                    continue
+                for (v, w) in cfg.back_edges:
+                    if cfg.dominates(w, cn) and cn in cfg.reachable_from([w], None, None) and \
+                            w in cfg.reachable_from([cn], None, None):
+                        heads.add(w)
+
+            def childless_arm(v, w, lab):
+                return isinstance(lab, str) and lab in ('case:Leaf', 'case:None')
+            rets_f = [n_.idx for n_ in cfg.nodes if n_.kind == 'return']
+            free = cfg.reachable_from([cfg.entry.idx], childless_arm, heads)
+            early = [r for r in rets_f if r in free]
+            ctx.check('%s/returns-after-the-children' % short(f).split('::')[-1], bool(heads) and not early,
+                      '%s: every return follows a loop over the children (or sits in the Leaf / None arm)' % inst(f),
+                      '%s: `%s` can be reached without walking the children of a node that may have '
+                      'some: the node count reported to the parent is wrong for a subtree with more '
+                      'than one node' % (inst(f), cfg.nodes[early[0]].ast.text(3) if early else '?'),
+                      cfg.nodes[early[0]].ast.loc if early else f.loc)
